@@ -3,7 +3,8 @@
 # applies /verif/seeded/<name>/patch.diff to /repo (never committed), runs the quick checks, undoes it
 name=$1; shift
 SR=${SEEDREPO:-/tmp/seedrepo}; cd $SR || exit 1
-if [ -n "$(git status --short)" ]; then echo "/repo not clean"; exit 1; fi
+if [ -n "$(git status --short)" ]; then echo "seed worktree not clean"; exit 1; fi
+git checkout -q --detach $(git -C /repo rev-parse HEAD)
 git apply /verif/seeded/$name/patch.diff 2>/dev/null || git apply -3 /verif/seeded/$name/patch.diff 2>/dev/null || { echo "RESULT $name PATCH-DOES-NOT-APPLY"; git checkout -q -- . ; git reset -q; exit 0; }
 git reset -q
 for c in "$@"; do
